@@ -584,10 +584,25 @@ func ruleDepth(c *Ctx) {
 		seenCall := false
 		restored := map[string]bool{}
 		examined := false
+		poppedVia := false
 		for _, i2 := range blk.Instrs {
 			if i2 == in {
 				seenCall = true
 				continue
+			}
+			if seenCall && !examined {
+				// a helper called here restores what it stores (and the calls it makes) on every path through it
+				if ci, ok := i2.(ssa.CallInstruction); ok {
+					if cal := ci.Common().StaticCallee(); cal != nil && cal != ex && len(cal.Blocks) > 0 && cal.Pkg == ex.Pkg {
+						st, calls := mustEffects(cal, 0)
+						for f := range st {
+							restored[f] = true
+						}
+						if calls["popSlice"] {
+							poppedVia = true
+						}
+					}
+				}
 			}
 			if name, val := interpFieldStore(i2); name != "" {
 				if name == "callDepth" {
@@ -633,7 +648,7 @@ func ruleDepth(c *Ctx) {
 				popped = true
 			}
 		}
-		if !popped {
+		if !popped && !poppedVia {
 			miss = append(miss, "sp (popSlice of the callee's locals)")
 		}
 		c.check(len(miss) == 0, "unwind", in.Pos(), "frame, localArrays, arrays and the callee's stack slots are restored before the callee's result (value, error, next/exit) is examined", "after the nested execute "+strings.Join(miss, ", ")+" not restored before the result is examined: an error or next/exit raised in a callee leaves the interpreter inconsistent")
@@ -785,6 +800,21 @@ func localArraysFresh(c *Ctx) {
 						}
 					}
 					return true
+				case *ssa.Field, *ssa.UnOp:
+					// a length kept in a field of a small struct of the package (state saved at the call and handed to the
+					// code that restores it): every value ever stored in that field must be such a length
+					if fv := structFieldRead(y); fv != nil {
+						ws := structFieldWrites(c, "interp", fv)
+						if len(ws) == 0 {
+							return false
+						}
+						for _, wv := range ws {
+							if !lenOK(wv, d+1) {
+								return false
+							}
+						}
+						return true
+					}
 				}
 				return false
 			}
@@ -887,4 +917,96 @@ func nestedFunctionExecutes(c *Ctx) []ssa.Instruction {
 		})
 	}
 	return nested
+}
+
+// mustEffects: the interpreter fields a function stores, and the names of the functions it calls, on every path from
+// its entry to a return (stores and calls in blocks that dominate every returning block; callees of the same package
+// are followed).
+func mustEffects(fn *ssa.Function, depth int) (stores map[string]bool, calls map[string]bool) {
+	stores, calls = map[string]bool{}, map[string]bool{}
+	if fn == nil || len(fn.Blocks) == 0 || depth > 3 {
+		return
+	}
+	var rets []*ssa.BasicBlock
+	for _, b := range fn.Blocks {
+		if len(b.Instrs) > 0 {
+			if _, ok := b.Instrs[len(b.Instrs)-1].(*ssa.Return); ok {
+				rets = append(rets, b)
+			}
+		}
+	}
+	for _, b := range fn.Blocks {
+		all := len(rets) > 0
+		for _, r := range rets {
+			if !b.Dominates(r) {
+				all = false
+			}
+		}
+		if !all {
+			continue
+		}
+		for _, in := range b.Instrs {
+			if name, _ := interpFieldStore(in); name != "" {
+				stores[name] = true
+			}
+			if ci, ok := in.(ssa.CallInstruction); ok {
+				if cal := ci.Common().StaticCallee(); cal != nil {
+					calls[cal.Name()] = true
+					if cal.Pkg == fn.Pkg && cal != fn {
+						s2, c2 := mustEffects(cal, depth+1)
+						for k := range s2 {
+							stores[k] = true
+						}
+						for k := range c2 {
+							calls[k] = true
+						}
+					}
+				}
+			}
+		}
+	}
+	return
+}
+
+// structFieldRead: v reads a field of a struct value or through a pointer to a struct that is not the interpreter:
+// the field, else nil.
+func structFieldRead(v ssa.Value) *types.Var {
+	switch x := v.(type) {
+	case *ssa.Field:
+		if st, ok := x.X.Type().Underlying().(*types.Struct); ok && !isInterp(x.X.Type()) {
+			return st.Field(x.Field)
+		}
+	case *ssa.UnOp:
+		if x.Op == token.MUL {
+			if fa, ok := x.X.(*ssa.FieldAddr); ok && !isInterp(fa.X.Type()) {
+				if st, ok := deref(fa.X.Type()).Underlying().(*types.Struct); ok {
+					return st.Field(fa.Field)
+				}
+			}
+		}
+	}
+	return nil
+}
+
+// structFieldWrites: every value stored into the given struct field anywhere in the package (composite literals are
+// stores into the fields of a fresh struct on the SSA form).
+func structFieldWrites(c *Ctx, pkgShort string, f *types.Var) []ssa.Value {
+	key := fmt.Sprintf("structFieldWrites:%s:%p", pkgShort, f)
+	if r, ok := c.memo[key].([]ssa.Value); ok {
+		return r
+	}
+	var out []ssa.Value
+	for _, fn := range c.srcFuncs(pkgShort) {
+		allInstrs(fn, func(in ssa.Instruction) {
+			if st, ok := in.(*ssa.Store); ok {
+				if fa, ok := st.Addr.(*ssa.FieldAddr); ok {
+					if sst, ok := deref(fa.X.Type()).Underlying().(*types.Struct); ok && sst.Field(fa.Field) == f {
+						out = append(out, st.Val)
+					}
+				}
+			}
+		})
+	}
+	c.memo[key] = out
+	return out
 }
